@@ -23,14 +23,14 @@ namespace Nomt.Locks2
 
 /-- the recorder's vocabulary of micro-step names -/
 inductive IName where
-  | aRead | aReadUnlock | aWrite1 | aWrite2 | aTryWrite | aWriteUnlock | mLock | mUnlock | sessRoot | readRoot
+  | aRead | aReadUnlock | aWrite1 | aWrite2 | aTryWrite | aWriteUnlock | mLock | mUnlock | sessRoot | sessBase | finChk | readRoot
   | sessRead | chkMarker | chkPoison | chkRoot | chkSeen | pubRoot | pubRb | logPush | logPop | store | storeRb | ret
 deriving DecidableEq, Repr
 
 def Instr.name {R W D : Type} : Instr R W D → IName
   | .aRead _ => .aRead | .aReadUnlock _ => .aReadUnlock | .aWrite1 => .aWrite1 | .aWrite2 => .aWrite2
   | .aTryWrite => .aTryWrite | .aWriteUnlock _ => .aWriteUnlock | .mLock => .mLock | .mUnlock => .mUnlock
-  | .sessRoot _ => .sessRoot | .readRoot => .readRoot | .sessRead _ => .sessRead | .chkMarker _ => .chkMarker
+  | .sessRoot _ => .sessRoot | .sessBase _ _ => .sessBase | .finChk _ => .finChk | .readRoot => .readRoot | .sessRead _ => .sessRead | .chkMarker _ => .chkMarker
   | .chkPoison => .chkPoison | .chkRoot _ => .chkRoot | .chkSeen => .chkSeen | .pubRoot _ _ => .pubRoot
   | .pubRb => .pubRb | .logPush _ _ => .logPush | .logPop _ => .logPop | .store _ _ => .store
   | .storeRb _ => .storeRb | .ret _ => .ret
@@ -104,6 +104,7 @@ inductive Obs (C R : Type) where
 def stepObs (s : S C R W D) (t : Tid) : Obs C R :=
   match (s.thr t).prog with
   | .sessRoot _ :: _ => .root s.db.root
+  | .sessBase _ _ :: _ => .root s.db.root
   | .readRoot :: _ => .root s.db.root
   | .sessRead _ :: _ => .content s.db.content
   | _ => .none
@@ -244,7 +245,8 @@ theorem vd_head {R W D : Type} (r : Res) (rest : List (Instr R W D)) (h : Vd (.a
 theorem exec_prog_cases (s : S C R W D) (t : Tid) (i : Instr R W D) (rest : List (Instr R W D))
     (hp : (s.thr t).prog = i :: rest) :
     let p := ((exec ops s t i rest).1.thr t).prog
-    p = i :: rest ∨ p = rest ∨ p = [] ∨ ∃ hm r, p = unwind hm r := by
+    p = i :: rest ∨ p = rest ∨ p = [] ∨ (∃ hm r, p = unwind hm r) ∨
+      ∃ sid, p = [.aReadUnlock sid, .ret .errSuperseded] := by
   intro p
   by_cases hi : i.isEff = true
   · have hx := exec_isEff ops s t i rest hi
@@ -254,7 +256,7 @@ theorem exec_prog_cases (s : S C R W D) (t : Tid) (i : Instr R W D) (rest : List
     | stop r db =>
       simp only
       split
-      · right; right; right; exact ⟨(s.m == some t), r, by simp⟩
+      · right; right; right; left; exact ⟨(s.m == some t), r, by simp⟩
       · right; right; left; simp [abort]
   · cases i <;> simp [Instr.isEff] at hi <;> simp only [p, exec]
     · split
@@ -276,6 +278,11 @@ theorem exec_prog_cases (s : S C R W D) (t : Tid) (i : Instr R W D) (rest : List
       · right; left; simp
     · right; left; simp
     · right; left; simp
+    · right; left; simp
+    · rename_i sid
+      split
+      · right; right; right; right; exact ⟨sid, by simp⟩
+      · right; left; simp
     · right; right; left; simp
 
 theorem exec_thr_other (s : S C R W D) (t u : Tid) (i : Instr R W D) (rest : List (Instr R W D)) (hu : u ≠ t) :
@@ -310,11 +317,12 @@ theorem vd_next (s : S C R W D) (e : Event R W D) (h : ∀ t, Vd (s.thr t).prog 
       · subst hu
         have hv := h u
         rw [hp] at hv
-        rcases exec_prog_cases ops s u i rest hp with e | e | e | ⟨hm, r, e⟩ <;> rw [e]
+        rcases exec_prog_cases ops s u i rest hp with e | e | e | ⟨hm, r, e⟩ | ⟨sid, e⟩ <;> rw [e]
         · exact hv
         · exact vd_tail i rest hv
         · rfl
         · exact vd_unwind hm r
+        · rfl
       · rw [exec_thr_other ops s t u i rest hu]; exact h u
   | spur t v =>
     simp only [next]
